@@ -1294,6 +1294,7 @@ func runC12(c *Ctx) {
 	c12R3(c)
 	c12R4(c)
 	c11R6(c)
+	msgNotDropped(c, c.R.Rule("R7", "K4 (= C06.R10) no message forgotten (v1): a stream node that received a message sends it on, hands it over, acks it or nacks it on every path — also on the ctx.Done() arms a force stop takes — so the source's wait for open messages, and with it the run, always ends", 8))
 }
 
 func c12R1(c *Ctx) {
